@@ -5,7 +5,7 @@ import os
 import sys
 import tempfile
 
-sys.path.insert(0, "/repo")
+sys.path.insert(0, __import__("os").environ.get("VERIF_REPO", "/repo"))
 from fibertree import Fiber, Payload, Tensor  # noqa: E402
 from . import proj  # noqa: E402
 
